@@ -874,6 +874,14 @@ def build_ops():
         O("method", None, ("methodcall",), None),
         O("call", lambda o, a, n, b, m: o(a, **{n: b, m: a}), ("value", "kwname", "any", "kwname"), [],
           kinds=["vec", "shape-call", "shape-seq", "shape-ctx", "shape-ops"]),
+        # the same call spelt `obj.__call__(...)`
+        O("call-dunder", lambda o, a, n, b: o.__call__(a, **{n: b}), ("value", "kwname", "any"), [("get", "__call__")],
+          kinds=["vec", "shape-call"]),
+        # a method that takes arbitrary keywords, reached through the TYPE (`type(p).update(p, **kw)`): on a proxy that
+        # is the made method itself (HANDLE_CALLATTR), not attribute access followed by a call
+        O("callattr-kw", lambda o, n, b, m: type(o).update(o, **{n: b, m: 1}), ("kwname", "value", "kwname"), [("get", "update")],
+          kinds=["dict"]),
+        O("callattr-kw", lambda o, n, b: type(o).scale(o, 2, **{n: b}), ("kwname", "smallint"), [("get", "scale")], kinds=["vec"]),
     ]
     return ops
 
@@ -914,7 +922,7 @@ METHODS = {
              ("copy", ()), ("sort", ()), ("sort", ("kw:reverse",))],
     "dict": [("get", ("key",)), ("get", ("key", "value")), ("pop", ("key",)), ("pop", ("key", "value")), ("setdefault", ("key", "value")),
              ("update", ("pairs",)), ("update", ("peer",)), ("keys", ()), ("values", ()), ("items", ()), ("popitem", ()), ("clear", ()),
-             ("copy", ()), ("update", ("kw:x",))],
+             ("copy", ()), ("update", ("kw:x",)), ("update", ("kw:_self",)), ("update", ("kw:self", "kw:_self"))],
     "set": [("add", ("value",)), ("discard", ("value",)), ("remove", ("value",)), ("pop", ()), ("union", ("seqobj",)),
             ("update", ("seqobj",)), ("issubset", ("peer",)), ("intersection", ("peer",)), ("clear", ()), ("copy", ()),
             ("symmetric_difference_update", ("peer",))],
@@ -1065,7 +1073,7 @@ def pick_operand(tw, r, spec, length):
         return imm(r.choice(["ValueError", "KeyError", "ZeroDivisionError", "StopIteration", "TypeError"]))
     if spec == "kwname":
         # keyword names that coincide with parameter names a proxy's own methods might use
-        return imm(r.choice(["x", "self", "args", "kwargs", "cls", "name", "obj", "handler", "proxy", "key", "self"]))
+        return imm(r.choice(["x", "self", "_self", "args", "kwargs", "cls", "name", "obj", "handler", "proxy", "key", "self", "_self"]))
     if spec == "attrname":
         if k == "pairs" and tw.config_name == "default":
             return imm(r.choice(PAIRS_DEFAULT_ATTRS))
@@ -1557,11 +1565,59 @@ def caller_side_comparison_observation():
     return out
 
 
+KEYWORD_NAMES = ["_self", "self", "args", "kwargs", "name", "cls"]
+
+
+def keyword_names_case(config_name):
+    """every way a call with keyword arguments reaches a target through a proxy, with keyword names a proxy's own
+    methods might have taken for themselves: obj(**kw), obj.__call__(**kw), a bound method of a builtin that accepts
+    arbitrary keywords (dict.update), the same method through the type, and a plain function"""
+    def plain(*args, **kwargs):
+        return (args, tuple(sorted(kwargs.items())))
+    sess = Session(config_name)
+    steps, problems = [], []
+    try:
+        far = dict(obj=SHAPES["shape-call"](1), d={"k": 0}, f=plain)
+        twin = dict(obj=SHAPES["shape-call"](1), d={"k": 0}, f=plain)
+        prox = dict((k, sess.lend(v)) for k, v in far.items())
+        ways = [("obj(%s=1)", lambda w, n: w["obj"](**{n: 1})),
+                ("obj.__call__(%s=1)", lambda w, n: w["obj"].__call__(**{n: 1})),
+                ("d.update(%s=1)", lambda w, n: w["d"].update(**{n: 1})),
+                ("type(d).update(d, %s=1)", lambda w, n: type(w["d"]).update(w["d"], **{n: 1})),
+                ("f(0, %s=1)", lambda w, n: w["f"](0, **{n: 1})),
+                ("f(_self=1, self=2, %s=3)", lambda w, n: w["f"](**dict({"_self": 1, "self": 2}, **{n: 3})))]
+        from rpyc.core import brine
+        for name in KEYWORD_NAMES:
+            for label, fn in ways:
+                (kp, vp), exp = outcome(lambda: fn(prox, name))
+                if exp is not None and is_policy_denial(exp):
+                    steps.append((label % name, "refused by the configuration", None))
+                    continue
+                (kt, vt), ext = outcome(lambda: fn(twin, name))
+                rp = (kp, valtext.canon(vp) if kp == "ok" and brine.dumpable(vp) else str(vp))
+                rt = (kt, valtext.canon(vt) if kt == "ok" and brine.dumpable(vt) else str(vt))
+                steps.append((label % name, str(rp)[:120], str(rt)[:120]))
+                if rp != rt:
+                    problems.append((len(steps) - 1, label % name, "through the proxy %r, on the target %r" % (rp, rt), "twin:keyword-name"))
+        if snap(far["d"]) != snap(twin["d"]):
+            problems.append((len(steps), "end", "the dict's state %r differs from its twin's %r" % (snap(far["d"]), snap(twin["d"])), "twin:keyword-name"))
+        if not sess.usable():
+            problems.append((len(steps), "end", "the connection is not usable afterwards", "twin:keyword-name"))
+    except Exception as ex:  # noqa
+        problems.append((len(steps), "setup", "could not run: %s" % type(ex).__name__, "twin:keyword-name"))
+    finally:
+        died = sess.close()
+    if died:
+        problems.append((len(steps), "end", "the serving side died: %r" % (died[:1],), "twin:keyword-name"))
+    return steps, problems
+
+
 def fixed_cases():
     """deterministic cases run every time: (kind, parameters)"""
     out = [("class_instance", list(c)) for c in class_instance_cases()]
     out += [("comparison", [n, cfg]) for n in COMPARISON_PAIRS for cfg in ("classic", "default")]
     out += [("exception_class", [])]
+    out += [("keyword_names", [cfg]) for cfg in ("classic", "public")]
     return out
 
 
@@ -1572,6 +1628,8 @@ def run_fixed(kind, params):
         return comparison_case(*params)
     if kind == "exception_class":
         return exception_class_case()
+    if kind == "keyword_names":
+        return keyword_names_case(*params)
     raise ValueError(kind)
 
 
